@@ -53,6 +53,12 @@ def printAtomDisp (d : Disp) (h : Host) : Atom → String
       | some q => printRefDisp d h q
       | none => "#REF!"
     f l ++ ":" ++ f r
+  | .frozen pre p1 p2 oR oC =>
+    let f (pre : Option Nat) (o : Option (Bool × Int × Bool × Int)) : String :=
+      match o with
+      | some (ra, x, ca, y) => printPoint pre ra x ca y oR oC
+      | none => "#REF!"
+    f pre p1 ++ ":" ++ f none p2
 
 /-- text of one atom as `get_cell_formula` shows it -/
 def printAtom (h : Host) (a : Atom) : String := printAtomDisp noDisp h a
